@@ -27,6 +27,9 @@ func SchedStats() (hash, picks, yields uint64)
 //go:linkname SetYield runtime.simSetYield
 func SetYield(num, den uint64)
 
+//go:linkname SetWallLimit runtime.simSetWallLimit
+func SetWallLimit(ns int64)
+
 //go:linkname SetTag runtime.simSetTag
 func SetTag(t uint64)
 
